@@ -34,6 +34,15 @@ Theorem C09_out_of_range_refused :
 Proof. exact sym_out_of_range. Qed.
 Print Assumptions C09_out_of_range_refused.
 
+(* lookup by value: the scan returns the first symbol whose (truncated) value equals the query *)
+Theorem C09_lookup_by_value_is_first_match :
+  forall c e s (ys : list sym) value fuel i,
+    Inv s -> contents s = sym_table c e ys -> sh_entsize s = sym_esz c -> sh_size s < size_bound c ->
+    i <= lenN ys -> lenN ys - i <= lenN fuel ->
+    scan_values fuel (s_data s) c e (sh_entsize s) value i (lenN ys) = Ok (find_val c value (skipnN ys i) i).
+Proof. exact scan_values_first. Qed.
+Print Assumptions C09_lookup_by_value_is_first_match.
+
 (* the library's hash functions equal the ABI definitions *)
 Theorem C09_elf_hash_is_abi : forall name, Bytes.is_bytes name -> elf_hash name = elf_hash_abi name.
 Proof. exact elf_hash_is_abi. Qed.
